@@ -1,11 +1,14 @@
 import SvModel.Props.C06
+import SvModel.Lemmas.Strip
 /-!
 # C18 — strip_comments removes comments and nothing else (theorem on directive-free, D4-free text)
 
 `C18_plain_trees`: under the hypotheses of `C06_identity` (the preprocessor's own parse has no directive node and no trivia after a
 string / escaped identifier) `preprocess_str` returns, for EITHER value of the flag, `emitAll`: every non-comment token verbatim and in
 order, every comment verbatim (flag off) or replaced by exactly one separator byte (flag on), and the same define table.
-Texts with directives / macro usages are covered by the walker correspondence and the oracle, not by this theorem.
+`C18_strip_sim` (general case, every tree): the runs with the flag off and on fail with the same error or succeed with the same define table and
+outputs that differ only in that chunks which are the text of a `Comment` node are replaced by one separator byte (`C18_chunks`); the flag is
+threaded through `include and macro expansion (`C18_strip_sim_inner`, `C18_strip_sim_usage`).
 -/
 namespace Sv
 open Sv.Gen
@@ -50,5 +53,82 @@ theorem C18_comment_one_byte (inp : Input) (path : Bytes) (out : POut) (k o l n 
     emitSD ppKinds true inp path out (.node k [.node ppKinds.comment [.leaf o l n]]) =
       out.push (if (bytesOf inp o l).getLast? == some 10 then [10] else [32]) (some (path, ⟨o, o + l⟩)) :=
   emitSD_comment ppKinds inp path out k o l n
+
+/-! ### the general case: every input, through conditionals, `include and macro expansion -/
+
+/-- **C18, walker level, all inputs.** For the regenerated preprocessor grammar and kind table, every file system, include path list, input text,
+    path, caller-supplied define table, `ignore_include` value, depth counters and fuel: `preprocess_str` with `strip_comments` off and on
+    either both fail, with the same error, or both succeed with the same define table and with output texts related by `TextRel`. -/
+theorem C18_strip_sim (fs : Fs) (incs : List Bytes) (fuel : Nat) (s path : Bytes) (d : Defines) (ii : Bool) (rd id : Nat) :
+    ResRel ppKinds (preprocessStr ⟨ppKinds, grammar, fs, incs⟩ fuel s path d ii false rd id)
+                   (preprocessStr ⟨ppKinds, grammar, fs, incs⟩ fuel s path d ii true rd id) :=
+  (walk_strip_sim ⟨ppKinds, grammar, fs, incs⟩ fuel).1 s path d ii rd id
+
+/-- the same for a file reached through `include (`preprocess_inner`) … -/
+theorem C18_strip_sim_inner (fs : Fs) (incs : List Bytes) (fuel : Nat) (path : Bytes) (d : Defines) (ii : Bool) (rd id : Nat) :
+    ResRel ppKinds (preprocessInner ⟨ppKinds, grammar, fs, incs⟩ fuel path d false ii rd id)
+                   (preprocessInner ⟨ppKinds, grammar, fs, incs⟩ fuel path d true ii rd id) :=
+  (walk_strip_sim ⟨ppKinds, grammar, fs, incs⟩ fuel).2.2.1 path d ii rd id
+
+/-- … and for a macro expansion (`resolve_text_macro_usage`): same error, or same origin, same table and related expansion texts -/
+theorem C18_strip_sim_usage (fs : Fs) (incs : List Bytes) (fuel : Nat) (inp : Input) (s path : Bytes) (x : Tree) (d : Defines) (ii : Bool) (rd id : Nat) :
+    UsRel ppKinds (resolveUsage ⟨ppKinds, grammar, fs, incs⟩ fuel inp s path x d ii false rd id)
+                  (resolveUsage ⟨ppKinds, grammar, fs, incs⟩ fuel inp s path x d ii true rd id) :=
+  (walk_strip_sim ⟨ppKinds, grammar, fs, incs⟩ fuel).2.2.2 inp s path x d ii rd id
+
+/-- same error: a run fails with `e` without the flag iff it fails with `e` with it -/
+theorem C18_same_error (fs : Fs) (incs : List Bytes) (fuel : Nat) (s path : Bytes) (d : Defines) (ii : Bool) (rd id : Nat) (e : PpError) :
+    preprocessStr ⟨ppKinds, grammar, fs, incs⟩ fuel s path d ii false rd id = .error e ↔
+    preprocessStr ⟨ppKinds, grammar, fs, incs⟩ fuel s path d ii true rd id = .error e := by
+  have h := C18_strip_sim fs incs fuel s path d ii rd id
+  revert h
+  generalize preprocessStr ⟨ppKinds, grammar, fs, incs⟩ fuel s path d ii false rd id = r1
+  generalize preprocessStr ⟨ppKinds, grammar, fs, incs⟩ fuel s path d ii true rd id = r2
+  intro h
+  match r1, r2, h with
+  | .error a, .error b, h => have : b = a := h; subst this; exact Iff.rfl
+  | .ok (_, _), .ok (_, _), _ => constructor <;> (intro h; cases h)
+  | .error _, .ok _, h => exact h.elim
+  | .ok _, .error _, h => exact h.elim
+
+/-- same define table -/
+theorem C18_same_defines (fs : Fs) (incs : List Bytes) (fuel : Nat) (s path : Bytes) (d : Defines) (ii : Bool) (rd id : Nat)
+    (o o' : POut) (t t' : Defines)
+    (h1 : preprocessStr ⟨ppKinds, grammar, fs, incs⟩ fuel s path d ii false rd id = .ok (o, t))
+    (h2 : preprocessStr ⟨ppKinds, grammar, fs, incs⟩ fuel s path d ii true rd id = .ok (o', t')) :
+    t' = t ∧ TextRel ppKinds o.text o'.text := by
+  have h := C18_strip_sim fs incs fuel s path d ii rd id
+  rw [h1, h2] at h
+  exact h
+
+/-- what `TextRel` means: the two texts are the concatenations of the same list of chunks, except that the chunks marked as comments — each the
+    text spanned by a `Comment` node — are replaced by `commentEmit true` of themselves (one separator byte, `C18_sep_one_byte`) in the second. -/
+theorem C18_chunks {a b : Bytes} (h : TextRel ppKinds a b) :
+    ∃ chunks : List (Bytes × Bool),
+      a = (chunks.map (·.1)).flatten ∧
+      b = (chunks.map (fun c => if c.2 then commentEmit true c.1 else c.1)).flatten ∧
+      ∀ c ∈ chunks, c.2 = true → IsCommentChunk ppKinds c.1 := by
+  induction h with
+  | refl a => exact ⟨[(a, false)], by simp, by simp, by simp⟩
+  | comment c hc => exact ⟨[(c, true)], by simp, by simp, by simpa using hc⟩
+  | app _ _ ih1 ih2 =>
+    obtain ⟨c1, ha1, hb1, hc1⟩ := ih1
+    obtain ⟨c2, ha2, hb2, hc2⟩ := ih2
+    refine ⟨c1 ++ c2, by simp [ha1, ha2], by simp [hb1, hb2], ?_⟩
+    intro c hc ht
+    rcases List.mem_append.mp hc with h | h
+    · exact hc1 c h ht
+    · exact hc2 c h ht
+
+/-- the separator is exactly one byte: a line end for a comment that ends in one, a blank otherwise -/
+theorem C18_sep_one_byte (c : Bytes) : commentEmit true c = [10] ∨ commentEmit true c = [32] := by
+  unfold commentEmit; simp only [Bool.not_true, Bool.false_eq_true, if_false]; split <;> simp
+
+/-- non-vacuity: a comment chunk exists and the relation relates two different texts (`a/**/b` and `a b`) -/
+example : TextRel ppKinds ([97] ++ [47, 42, 42, 47] ++ [98]) ([97] ++ [32] ++ [98]) := by
+  refine .app (.app (.refl _) ?_) (.refl _)
+  have hc : IsCommentChunk ppKinds [47, 42, 42, 47] :=
+    ⟨toInput [47, 42, 42, 47], .node ppKinds.comment [.leaf 0 4 1], 0, 4, 1, rfl, rfl, by decide⟩
+  exact TextRel.comment (K := ppKinds) _ hc
 
 end Sv
